@@ -42,6 +42,7 @@ def solve_campaign(ctx, n_systems, gen_kw=None, case_kw=None, filt=None, variant
     post(system, case list, rng, next id) may append further cases for the same system"""
     res = Result()
     rng = ctx.rng
+    EDIT_COUNT.clear()
     behs = build_behaviours(ctx, int(n_systems * (3 if filt else 1.1)) + 8)
     cases, structs = [], set()
     n = 0
@@ -126,6 +127,7 @@ def solve_campaign(ctx, n_systems, gen_kw=None, case_kw=None, filt=None, variant
         res.extra["skeleton_states"] = {"model": scnt.get("distinct"), "instantiated": len(picked)}
     validate_cases(ctx, res, cases)
     res.extra["systems"] = n
+    res.extra["edits_between_solves"] = dict(EDIT_COUNT)
     res.extra["distinct_structures"] = len(structs)
     res.extra["solve_outcomes"] = {}
     for c in cases:
@@ -149,6 +151,9 @@ def mc_laws(ctx, res):
             res.mc_failures.append("MCLaws: " + m["out"][m["out"].find("Error:"):][:3000])
         else:
             raise tlc.TLCError(m["out"][-2000:])
+
+
+EDIT_COUNT = {}        # kind of edit -> how often it was applied in this run (stratified choice, reported in the evidence)
 
 
 def edit_and_resolve(s, cases, rng, rail_rep, kw):
@@ -179,19 +184,26 @@ def edit_and_resolve(s, cases, rng, rail_rep, kw):
     except Exception:
         railrefs = []
     edit = None
+    inner = [n for n, c in comps.items() if n in kids]
+    movable = [n for n in leaves if [h for h in hosts if h != n and h not in comps[n]["par"]]]
+    kinds = (["phases_dur", "phases_names", "phases_clear"] if st["sysph"] else []) + (["rerail"] if railrefs else []) + \
+            (["del_muxin"] if muxin else []) + (["move_leaf"] if movable else []) + (["replace_inner"] if inner else [])
+    if not kinds:
+        return
+    # stratified: the applicable kind that has been used least so far in this run (ties broken at random)
+    low = min(EDIT_COUNT.get(k, 0) for k in kinds)
+    kind = rng.choice([k for k in kinds if EDIT_COUNT.get(k, 0) == low])
+    EDIT_COUNT[kind] = EDIT_COUNT.get(kind, 0) + 1
     try:
-        r0 = rng.random()
-        if st["sysph"] and r0 < 0.3:
-            # the system phases are re-declared with other durations (24 h energies, averages and shares follow), or
-            # cleared altogether: components keep their phase configuration, but only the unnamed phase "" is solved
+        if kind.startswith("phases"):
+            # the system phases are re-declared with other durations (24 h energies, averages and shares follow), with other
+            # names, or cleared altogether: the components keep their phase configuration
             from decwire import cell as _c
-            r1 = rng.random()
-            if r1 < 0.4:
+            if kind == "phases_dur":
                 newph = {p["name"]: float("%.3g" % (rng.uniform(0.2, 5.0) * (i + 1))) for i, p in enumerate(st["sysph"])}
                 kw = dict(kw, energy=True)
                 what = "system phases re-declared with other durations"
-            elif r1 < 0.7:
-                # other names: one phase is kept, the others are replaced - the component configurations stay as they are
+            elif kind == "phases_names":
                 keep = st["sysph"][0]["name"]
                 newph = {"z1": 2.0, keep: 1.5, "z2": 0.25}
                 kw = {k: v for k, v in kw.items() if k != "phase"}
@@ -202,7 +214,7 @@ def edit_and_resolve(s, cases, rng, rail_rep, kw):
                 what = "system phases cleared"
             edit = {"op": "set_sys_phases", "args": {"phases": [{"name": k, "dur": _c(v)} for k, v in newph.items()]}, "pre": st}
             s.set_sys_phases(newph)
-        elif railrefs and r0 < 0.6:
+        elif kind == "rerail":
             # a mux input that was declared through its rail gets another rail (or none): the mux keeps that input
             x = rng.choice(railrefs)
             free = [r for r in ("rx1", "rx2", "") if r != comps[x]["rail"]]
@@ -212,26 +224,20 @@ def edit_and_resolve(s, cases, rng, rail_rep, kw):
                 from rebuild import conf_of
                 s.set_comp_phases(x, conf_of(pc))
             what = "mux input %s (declared by rail) re-railed" % x
-        elif muxin and rng.random() < 0.8:
+        elif kind == "del_muxin":
             # remove an intermediate component that is a mux input: the mux must keep its input order, with the removed
             # component's parent in its place (SysTree!DelCompEff)
             m, x = rng.choice(muxin)
             edit = {"op": "del_comp", "args": {"target": x, "delchilds": False}, "pre": st}
             s.del_comp(x, del_childs=False)
             what = "removed mux input %s (children kept)" % x
-        elif leaves and rng.random() < 0.7:
-            n = rng.choice(leaves)
-            cand = [h for h in hosts if h != n and h not in comps[n]["par"]]
-            if not cand:
-                return
-            h = rng.choice(cand)
+        elif kind == "move_leaf":
+            n = rng.choice(movable)
+            h = rng.choice([h for h in hosts if h != n and h not in comps[n]["par"]])
             s.del_comp(n)
             s.add_comp(h, comp=build(desc_of(comps[n])), group=comps[n]["group"], rail=comps[n]["rail"])
             what = "moved %s below %s" % (n, h)
         else:
-            inner = [n for n, c in comps.items() if n in kids]
-            if not inner:
-                return
             n = rng.choice(inner)
             s.change_comp(n, comp=build(desc_of(comps[n])), group=comps[n]["group"], rail=comps[n]["rail"])
             pc = comps[n]["pconf"]
